@@ -90,6 +90,9 @@ CHECKS = {
  "C09": ("exploration", "round-trip and differential run-time monitor: print/parse round trip of generated rule texts; the same rule through engine / inline / session / persistent / restarted paths",
          "held on every generated rule of the run: the printed rule parses back to the same AST; the answers through the inline-session, WebSocket-session, persistent and restarted-persistent paths equal the engine's answer on the original text (values with kind)",
          "trusted: Debug form of ast::Rule for AST equality; the engine on the original text as reference", "3/C09"),
+ "C15": ("fault_enumeration", "controlling scheduler over cfg-guarded hook points (real threads, one granted at a time, blocked-thread detection) + crash images (directory copies at quiescent steps) recovered by the real StorageEngine::new",
+         "held on every explored schedule and every crash image of the run: the served state is the serial-order state, survives a restart, and every crash image opens, contains every acknowledged insert and no acknowledged delete / unbegun insert",
+         "crash model A (completed writes durable; image = copy while all writers are parked); schedules are seeded random walks over the hook points, not exhaustive", "3/C15"),
 }
 NOT_YET = "monitor not built yet in this round (design in DESIGN.md section 3); not claimed until a check exists"
 
